@@ -898,11 +898,16 @@ class PDFDocument:
                 se = entry.get("SE")
                 yield (level, title, dest, action, se)
             if "First" in entry and "Last" in entry:
-                yield from search(entry["First"], level + 1)
-            if "Next" in entry:
-                yield from search(entry["Next"], level)
+                yield from siblings(entry["First"], level + 1)
 
-        return search(self.catalog["Outlines"], 0)
+        def siblings(entry: object, level: int) -> Iterator[PDFDocument.OutlineType]:
+            # Walk the Next chain iteratively: recursing once per sibling
+            # overflows the stack on long flat outlines.
+            while entry is not None:
+                yield from search(entry, level)
+                entry = dict_value(entry).get("Next")
+
+        return siblings(self.catalog["Outlines"], 0)
 
     def get_page_labels(self) -> Iterator[str]:
         """Generate page label strings for the PDF document.
